@@ -60,8 +60,9 @@ def gen_case(rng):
 
 
 def project(scroot, name, hostile=None):
-    tasks = [gen.mk_task("", "e1", "run_experiment", par=True), gen.mk_task("a", "e2", "run_experiment", ["//:e1"], par=True), gen.mk_task("a", "e3", "run_experiment", par=True),
-             gen.mk_task("a/b/deep", "e4", "run_experiment", ["//a:e2"], par=True),
+    tasks = [gen.mk_task("", "e1", "run_experiment", par=True, args=[1, "first"], options={"stage": 1}), gen.mk_task("a", "e2", "run_experiment", ["//:e1"], par=True, args=[2], options={"stage": 2, "extra": True}),
+             gen.mk_task("a", "e3", "run_experiment", par=True),
+             gen.mk_task("a/b/deep", "e4", "run_experiment", ["//a:e2"], par=True, args=[4]),
              gen.mk_task("", "c", "run_command", ["//a:e2"]), gen.mk_task("", "top", "combine", ["//:c", "//a:e3", "//a:e2", "//a/b/deep:e4"])]
     # a definition Conductor must reject (the same dependency under two spellings); should it run anyway,
     # every execution still needs its own fresh directory
@@ -69,6 +70,9 @@ def project(scroot, name, hostile=None):
     dd["dep_strs"] = [":e1", "//:e1"]
     tasks.append(dd)
     scripts = {t["id"]: {"steps": [["file", "data/o.bin", realrun.b64(os.urandom(16))], ["marker"]]} for t in tasks if t["kind"] in gen.PROC_KINDS}
+    # dependents that start from their dependency's files: symbolic links (e2) / hard links (e4) into their own output
+    scripts["//a:e2"]["steps"].insert(0, ["link_dep_files", "sym"])
+    scripts["//a/b/deep:e4"]["steps"].insert(0, ["link_dep_files", "hard"])
     return realrun.Project(scroot, tasks, scripts, name=name, hostile=hostile)
 
 
